@@ -255,7 +255,8 @@ BlockNodes(n, parent, row) ==
     [op |-> [op |-> "Input", types |-> row], parent |-> n],
     [op |-> [op |-> "Output", types |-> <<>>], parent |-> n]>>
 BlockCtx(n, g) == [node |-> n, inp |-> n + 1, out |-> n + 2, kind |-> "block", cond |-> g]
-Cfgs == {n \in 0..(NNodes - 1) : NodeOp(n).op = "CFG"}
+Inserted(n) == "ins" \in DOMAIN nodes[n + 1]
+Cfgs == {n \in 0..(NNodes - 1) : NodeOp(n).op = "CFG" /\ ~Inserted(n)}          \* the CFGs a Cfg builder exists for
 ExitOf(g) == g + 4
 BlocksOf(g) == {n \in 0..(NNodes - 1) : NodePar(n) = g /\ NodeOp(n).op = "DataflowBlock"}
 SuccLinked(b, i) == \E j \in 1..Len(links) : links[j][1] = b /\ links[j][2] = i
@@ -340,7 +341,7 @@ Templates == [
      links |-> <<<<2, 0, 3, 0>>, <<1, 0, 4, 0>>, <<1, 1, 4, 0>>>>]]
 Insert(k, name, args) ==
   LET c == ctxs[k].node n == NNodes T == Templates[name]
-      tn == [j \in 1..Len(T.nodes) |-> [op |-> T.nodes[j].op, parent |-> IF j = 1 THEN c ELSE T.nodes[j].parent + n]]
+      tn == [j \in 1..Len(T.nodes) |-> [op |-> T.nodes[j].op, parent |-> IF j = 1 THEN c ELSE T.nodes[j].parent + n, ins |-> TRUE]]   \* ins: no builder object exists for a copied node
       tl == [j \in 1..Len(T.links) |-> <<T.links[j][1] + n, T.links[j][2], T.links[j][3] + n, T.links[j][4]>>] IN
   /\ calls < MaxCalls
   /\ nodes' = nodes \o tn
@@ -453,7 +454,7 @@ Bad_OutputWire(w) ==             \* set_outputs with such a wire
   LET c == ctxs[Len(ctxs)].node IN
   /\ ctxs[Len(ctxs)].kind \in {"dfg", "case", "func"} /\ w \in BadWires(c)
   /\ Refuse([a |-> "SetOutputs", ctx |-> c, args |-> <<w>>], WireVerdict(c, w))
-Conds == {n \in 0..(NNodes - 1) : NodeOp(n).op = "Conditional"}
+Conds == {n \in 0..(NNodes - 1) : NodeOp(n).op = "Conditional" /\ ~Inserted(n)}
 OpenRegions == {ctxs[j].node : j \in 1..Len(ctxs)}
 Bad_CaseDisagree(args) ==        \* a later case returns another row than the first finished one
   LET cx == ctxs[Len(ctxs)] c == cx.node row == [i \in 1..Len(args) |-> WireType(args[i])] IN
